@@ -40,6 +40,7 @@ type Profile struct {
 	DefectPct int   `json:"defect_pct"`
 	Subtree  bool   `json:"subtree"`
 	Script   bool   `json:"script,omitempty"` // start with the scripted cut-tile scenario
+	TwoW     bool   `json:"two_witnesses,omitempty"` // a second witness process with the same keys on the same lock store
 	Steps    int    `json:"steps"`
 }
 
@@ -65,6 +66,10 @@ func MakeProfile(prop string, seed uint64, tier string) *Profile {
 	switch prop {
 	case "C14":
 		p.Mirror = r.Chance(1, 4)
+		if r.Chance(1, 3) {
+			p.TwoW = true
+			p.Tag += "+2w"
+		}
 	case "C15":
 		p.Mirror = true
 		p.Conc = 1 + r.Intn(4)
@@ -175,6 +180,14 @@ func (w *World) witnessConfig(inc *incarnation) *witness.Config {
 
 // startWitness creates a new witness process on the surviving lock store.
 func (w *World) startWitness() {
+	inc := w.newIncarnation()
+	w.inc = inc
+	w.orc.onStart(inc)
+	w.sim.Logf("witness incarnation %d started", inc.n)
+}
+
+// newIncarnation starts a witness process on the surviving lock store.
+func (w *World) newIncarnation() *incarnation {
 	w.incN++
 	inc := &incarnation{w: w, n: w.incN}
 	inc.cfg = w.witnessConfig(inc)
@@ -209,9 +222,7 @@ func (w *World) startWitness() {
 		}
 	}
 	w.auto = prevAuto
-	w.inc = inc
-	w.orc.onStart(inc)
-	w.sim.Logf("witness incarnation %d started", inc.n)
+	return inc
 }
 
 func (w *World) main(replay []core.Cmd) {
@@ -335,6 +346,14 @@ func (w *World) enabled() []core.WCmd {
 	if p.RestartW > 0 && w.restarts < p.MaxRestarts {
 		out = append(out, core.WCmd{Cmd: core.Cmd{A: "restart"}, W: p.RestartW})
 	}
+	if p.TwoW && len(w.reqs) < p.Reqs {
+		if w.shadow == nil {
+			out = append(out, core.WCmd{Cmd: core.Cmd{A: "spawn2"}, W: 10})
+		} else {
+			out = append(out, core.WCmd{Cmd: core.Cmd{A: "kill2"}, W: 2})
+			out = append(out, core.WCmd{Cmd: core.Cmd{A: "req2", N: int64(r.Uint64() >> 1), L: w.drawPlan()}, W: 40})
+		}
+	}
 	return out
 }
 
@@ -391,6 +410,26 @@ func (w *World) exec(c core.Cmd) bool {
 		}
 		w.startRequest(uint64(c.N), c.L)
 		return true
+	case "spawn2":
+		if w.shadow != nil || !w.prof.TwoW {
+			return false
+		}
+		w.shadow = w.newIncarnation()
+		w.sim.Probe("shadow.spawn")
+		return true
+	case "kill2":
+		if w.shadow == nil {
+			return false
+		}
+		w.shadow.dead = true
+		w.shadow = nil
+		return true
+	case "req2":
+		if w.shadow == nil || w.shadow.dead {
+			return false
+		}
+		w.shadowRequest(uint64(c.N), c.L)
+		return true
 	case "restart":
 		if w.restarts >= w.prof.MaxRestarts+4 {
 			return false
@@ -428,6 +467,10 @@ func (w *World) quiesce() {
 	w.doneQ = nil
 	w.notesMu.Unlock()
 	for _, r := range done {
+		if r.shadow {
+			w.orc.onResponse(r)
+			continue
+		}
 		if r.inc != w.inc.n || w.inc.dead {
 			continue // response of a dead process does not exist
 		}
@@ -467,6 +510,7 @@ type request struct {
 	faulted  bool
 	casFaulted bool
 	truncated bool
+	shadow    bool
 }
 
 type segReader struct {
@@ -525,6 +569,9 @@ func (r *segReader) Close() error { return nil }
 
 func (w *World) serve(rq *request, hreq *http.Request) {
 	inc := w.inc
+	if rq.shadow {
+		inc = w.shadow
+	}
 	h := inc.wit.Handler()
 	go func() {
 		rec := httptest.NewRecorder()
@@ -632,4 +679,32 @@ func (w *World) scriptCutTile() {
 	}
 	w.sim.Probe("script.cut-tile")
 	entries(n1, n1, ticket.ticket, "ticket-cut")
+}
+
+// shadowRequest sends an add-checkpoint request to the second witness process.
+// All its lock/storage calls happen under its per-log mutex, so it runs to
+// completion within the step. Its view of the recorded state may be stale, so
+// only the safety clauses of the oracle apply to it (and, from then on, to the
+// primary, whose cache it invalidates).
+func (w *World) shadowRequest(rseed uint64, plan []int) {
+	r := core.NewRand(core.Mix(w.sim.Seed, rseed))
+	g := w.logs[r.Intn(len(w.logs))]
+	rq := &request{id: len(w.reqs), g: g, inc: w.shadow.n, startStep: w.sim.Step, kind: "addckpt", shadow: true}
+	w.reqs = append(w.reqs, rq)
+	w.plan, w.planPos = plan, 0
+	w.curReq = rq
+	recN, recRoot, _ := w.recorded(g)
+	rq.rec0N, rq.rec0Root = recN, recRoot
+	// sometimes build the request against an older recorded size (what a client
+	// of a stale witness would send)
+	if hist := w.orc.wit[g.origin]; len(hist) > 1 && r.Chance(1, 3) {
+		old := hist[r.Intn(len(hist))]
+		rq.rec0N, rq.rec0Root = old.n, old.root
+	}
+	w.shadowUsed = true
+	primary := w.inc
+	w.inc = w.shadow
+	w.genAddCheckpoint(rq, r)
+	w.inc = primary
+	w.sim.Probe("shadow.request")
 }
